@@ -300,6 +300,11 @@ def run(ctx, report):
     exprobj.emit_law(R11, ctx, 'visit-id')
     exprobj.emit_law(R11, ctx, 'visit-rename')
 
+    R12 = report.rule('C13.D12', 'order-insensitivity on the node classes as written: expression.py and expression_helper.py interpreted together (their own __eq__, __hash__, ordering key and '
+                      'module-level state), each spelling simplified in a fresh interpretation and again after other calls in one interpretation -- operands whose hashes coincide '
+                      '(a-b / b-a, c?(a,b) / c?(b,a)) included: all results of a group are the identical expression', floor=30)
+    exprobj.emit_order_on_source(R12, ctx)
+
     R7 = report.rule('C13.D7', 'a constant has one representation: the simplifier rebuilds a constant leaf of another integer type in the table\'s (unsigned) type, and every constant it builds '
                      'takes its type from that table or from a constant operand', floor=3)
     hlp7 = ctx.mod('expr_helper')
